@@ -2686,7 +2686,11 @@ impl Block {
         //
         // TODO SYNC : Add the code to check whether this is the genesis block and skip validations
         //
-        assert!(self.id > 0);
+        if self.id == 0 {
+            // block ids start at 1. the id comes from the (peer supplied) header
+            error!("block : {:?} has id 0. not a valid block", self.hash.to_hex());
+            return false;
+        }
         if configs.is_spv_mode() {
             self.generate_consensus_values(blockchain, storage, configs)
                 .await;
